@@ -415,6 +415,20 @@ def check_term(t):
         except Exception:  # noqa
             continue
         return f"{t.name}: non-conforming value {v!r} was accepted and stored as {inst.attr!r}"
+    # "each supplied or defaulted value": an attribute without a default that is not supplied (or supplied as MISSING, which
+    # stands for "not supplied") holds MISSING - construction succeeds exactly when MISSING conforms to the annotation
+    for how, make in (("omitted", lambda: cls()), ("passed as MISSING", lambda: cls(attr=MISSING))):
+        try:
+            inst = make()
+        except Exception:  # noqa
+            if conf(t, MISSING):
+                return f"{t.name}: the attribute {how} - MISSING conforms to the annotation but construction failed"
+            continue
+        if not conf(t, MISSING):
+            return (f"{t.name}: the attribute has no default and was {how}, MISSING does not conform to the annotation, yet "
+                    f"construction succeeded with {inst.attr!r}")
+        if inst.attr is not MISSING:
+            return f"{t.name}: the attribute was {how}; it is stored as {inst.attr!r}, not as MISSING"
     return None
 
 
